@@ -7,8 +7,8 @@ far (the LTS is deterministic up to the choice among simultaneously ready `selec
 order of the callers).  Every line is answered `ok` (for `close`/`lclose`: the predicted result)
 or `reject <why>`:
 
-* `ret i t kind`  — the real caller `i` returned at virtual time `t`: some configuration must
-  predict exactly that; the others are dropped;
+* `ret i t kind n` — the real caller `i` returned at virtual time `t` (`n` = bytes a `Read`
+  delivered, else 0): some configuration must predict exactly that; the others are dropped;
 * before any environment event and at `end`, configurations that predict a return which the
   real code did not show are dropped — none left = reject;
 * `blocked i`     — the real caller is still blocked: configurations where it is not are dropped.
@@ -40,7 +40,7 @@ def parseDl (s : String) : Option (Option Time) :=
 
 def showThread (t : Thread) : String :=
   match t.pc, t.ret with
-  | .done, some r => s!"returned {showRet r}@{t.retAt}"
+  | .done, some r => s!"returned {showRet r}@{t.retAt} n={t.got}"
   | .sel, _ => "blocked"
   | .idle, _ => "idle"
   | _, _ => "running"
@@ -91,17 +91,17 @@ def stepLine (d : DS) (toks : List String) : DS × String :=
     match t.toNat? with
     | some t => ({ d with confs := dedup (d.confs.flatMap (advance d.cfg 64 t)) }, "ok")
     | none => (d, "bad-op")
-  | ["ret", i, t, k] =>
-    match i.toNat?, t.toNat?, parseRet k with
-    | some i, some t, some k =>
+  | ["ret", i, t, k, n] =>
+    match i.toNat?, t.toNat?, parseRet k, n.toNat? with
+    | some i, some t, some k, some n =>
       let keep := d.confs.filterMap fun s =>
         match s.ths[i]? with
         | some th =>
-          if th.pc == .done && th.ret == some k && th.retAt == t then step d.cfg s (.collect i) else none
+          if th.pc == .done && th.ret == some k && th.retAt == t && th.got == n then step d.cfg s (.collect i) else none
         | none => none
-      if keep.isEmpty then reject d s!"caller {i} returned {showRet k}@{t}, model: {describe d.confs i}"
+      if keep.isEmpty then reject d s!"caller {i} returned {showRet k}@{t} n={n}, model: {describe d.confs i}"
       else ({ d with confs := dedup keep }, "ok")
-    | _, _, _ => (d, "bad-op")
+    | _, _, _, _ => (d, "bad-op")
   | ["blocked", i] =>
     match i.toNat? with
     | some i =>
@@ -113,8 +113,12 @@ def stepLine (d : DS) (toks : List String) : DS × String :=
     match flushDone d with
     | (d', some why) => (d', why)
     | (d', none) => (d', "ok")
-  | ["call", i] => match i.toNat? with | some i => envStep d (.call i) | none => (d, "bad-op")
-  | ["arrive", k] => match k.toNat? with | some k => envStep d (.arrive k) | none => (d, "bad-op")
+  | ["call", i, b] => match i.toNat?, b.toNat? with
+    | some i, some b => envStep d (.call i b)
+    | _, _ => (d, "bad-op")
+  | "arrive" :: ms => match ms.mapM (·.toNat?) with
+    | some ms => envStep d (.arrive ms)
+    | none => (d, "bad-op")
   | ["open", j] => match j.toNat? with | some j => envStep d (.opn j) | none => (d, "bad-op")
   | ["pump"] => envStep d .pump
   | ["setrd", x] => match parseDl x with | some v => envStep d (.setRD v) | none => (d, "bad-op")
